@@ -40,6 +40,8 @@ BIG_COVERS = [
     [[0, 1, 2], list(range(3, 11)), [2, 3]],
     [list(range(1, 9)), [1, 9], [2, 9, 10]],                     # 1-based
     [list(range(12)), [0, 12], [1, 12, 13, 14]],                 # sizes {2, 4, 12}
+    # a hub that lies in 300 edge-cliques and one triangle (per-vertex counts beyond 255)
+    [[0, i] for i in range(1, 301)] + [[0, 301, 302]],
 ]
 
 
@@ -113,6 +115,8 @@ def check_cover(cover, how):
             return ("C08:table-values", f"P{k} = {jdd[k]}, expected {p}")
     # wiring: sample and generate with clique motifs of the reported sizes (default RNG resolution)
     N = len({v for c in cover for v in c})
+    if N > 60:
+        return None   # the wiring run is a smoke test; skipped for the large hub cover
 
     def body():
         jds = obj.sample_jds_from_jdd(N)
